@@ -333,6 +333,7 @@ func runC17(c *Ctx) {
 	c17Keys(c)
 	c17URLPrecedence(c)
 	c17FlagAlwaysSet(c)
+	protectionFlagTrusted(c, "O5")
 }
 
 func c17Serialiser(c *Ctx, F *ssa.Function) {
